@@ -4,11 +4,22 @@ sys.path.insert(0, str(pathlib.Path(__file__).parent))
 import manifest_src as m
 HERE = pathlib.Path(__file__).resolve().parent.parent
 props = [json.loads(l)["id"] for l in open(HERE / "properties.jsonl")]
+known = json.loads((HERE / "known_findings.json").read_text()) if (HERE / "known_findings.json").exists() else []
 checks = []
 for pid in props:
     c = m.CHECKS.get(pid)
     if not c:
         continue
+    open_f = [k["id"] for k in known if k["property"] == pid and k["kind"] == "finding"]
+    fixed_f = [k["id"] for k in known if k["property"] == pid and k["kind"] == "fixed"]
+    extra = ""
+    if open_f or fixed_f:
+        extra = (f" Known findings of this property (known_findings.json): {len(open_f)} open ({', '.join(open_f) or '-'}; printed as "
+                 f"KNOWN-FINDING on every run, exit 0), {len(fixed_f)} repaired in dclab and re-checked on every run "
+                 f"({', '.join(fixed_f)}). Open findings with an R- id are violations of the statement for inputs outside the "
+                 f"functions and input classes under contract (DESIGN.md A.8): 'held' refers to the obligations generated "
+                 f"from the functions under contract.")
+    c = dict(c, note=c["note"] + extra)
     checks.append({
         "property_id": pid,
         "quick_cmd": f"./check {pid} --tier quick",
